@@ -8,7 +8,10 @@ Schemas == {"none", "str", "list", "obj", "nested"}
 Aliases == {"", "x"}
 Temporal == {"none", "for", "portion"}
 QCls == {"generic", "mysql"}
-Variants == [name : Names, schema : Schemas, alias : Aliases, temporal : Temporal, qcls : QCls]
+\* construction path: everything through the constructor, or derived by builder calls (as_, for_, for_portion)
+\* from a base table that has already been hashed, rendered and used in a query
+Paths == {"ctor", "derived"}
+Variants == [name : Names, schema : Schemas, alias : Aliases, temporal : Temporal, qcls : QCls, path : Paths]
 
 Srcs == {"t", "u", "v"}
 Cols == {"a", "b"}
